@@ -226,6 +226,7 @@ struct stub_channel_map
     std::vector<map_record<T>>* dens_calls = nullptr;
     int jac_kinds = 1;        // 1 finite positive; 5 adds zero/NaN/inf
     bool density_may_vanish = false;
+    bool coordinate_return_forks = false;   // the value returned by the coordinate call is documented to be ignored: return 1, 0 or NaN
 
     T operator()(std::size_t channel, std::vector<T> const& random_numbers, std::vector<T>& coordinates,
         std::vector<std::size_t> const& enabled_channels, std::vector<T>& densities,
@@ -248,6 +249,12 @@ struct stub_channel_map
             r.dens_seen = densities;
             log->ev("map_coordinates");
             coord_calls->push_back(r);
+            if (coordinate_return_forks)
+            {
+                int const c = h->choose("coordinate_call_returns", 3);
+                if (c == 1) return T(0.0);
+                if (c == 2) return h->special(NANK);
+            }
             return T(1.0);
         }
         key_t key = tab->last_key;
